@@ -2,6 +2,7 @@
 # Offline build of the Lean models, proofs and the model driver.
 set -e
 cd "$(dirname "$0")"
+python3 tools/mk_driver.py
 /venv/bin/python harness/gen_tables.py /repo
 cd lean
 lake build RigModel driver 2>&1 | tail -3
